@@ -411,6 +411,127 @@ fn check_stop_word_program(idx: u64, rules: &[Rule], rbc: Option<u8>, words: &[V
     }
 }
 
+// ------------------------------------------------------------------ the raw-TFM route
+
+/// A minimal TFM file for the characters a, b, c, d (width 1.0) with the lig/kern array `words` verbatim,
+/// `entries` = (character, remainder byte) of the characters tagged with a lig/kern program, six kerns
+/// (k+1) x 1.0 and design size 10.
+fn tiny_tfm(words: &[lk::Word], entries: &[(u8, u8)]) -> Vec<u8> {
+    let (bc, ec) = (b'a' as usize, b'd' as usize);
+    let nk = 6usize;
+    let lf = 6 + 18 + (ec + 1 - bc) + 2 + 1 + 1 + 1 + words.len() + nk;
+    let mut out: Vec<u8> = vec![];
+    for v in [lf, 18, bc, ec, 2, 1, 1, 1, words.len(), nk, 0, 0] {
+        out.extend((v as u16).to_be_bytes());
+    }
+    let mut hb = vec![0u8; 72];
+    hb[4..8].copy_from_slice(&DESIGN_SIZE.to_be_bytes());
+    out.extend(&hb);
+    for c in bc..=ec {
+        match entries.iter().find(|e| e.0 as usize == c) {
+            Some((_, r)) => out.extend([1, 0, 1, *r]),
+            None => out.extend([1, 0, 0, 0]),
+        }
+    }
+    out.extend([0, 0, 0, 0, 0, 0x10, 0, 0]);
+    out.extend([0u8; 12]);
+    for w in words {
+        out.extend(w);
+    }
+    for k in 0..nk {
+        out.extend((((k + 1) as i32) << 20).to_be_bytes());
+    }
+    out
+}
+
+/// One lig/kern array + entry bytes through `File::deserialize` + `compile_from_tfm_file`, compared with
+/// the reference interpreter on the raw words (restart applied once, to the entry word only, §1039).
+fn check_tfm_route(idx: u64, words: &[lk::Word], entries: &[(u8, u8)], run_words: &[Vec<u8>], acc: &mut Acc, sh: &Shared) {
+    let font = Font::from_tfm(words.to_vec(), entries);
+    let case = |extra: Value| {
+        let mut v = json!({"kind": "tfm-route", "words": words, "entries": entries});
+        if let (Some(a), Some(b)) = (v.as_object_mut(), extra.as_object()) {
+            for (k, x) in b {
+                a.insert(k.clone(), x.clone());
+            }
+        }
+        v
+    };
+    let knuth = lk::knuth_loop(&font);
+    let sim = lk::looping_pairs(&font, SIM_BUDGET);
+    if knuth.is_some() != !sim.is_empty() {
+        sh.machinery.lock().unwrap().push(format!("loop oracles disagree on raw words {words:?} entries {entries:?}"));
+        return;
+    }
+    let bytes = tiny_tfm(words, entries);
+    acc.eval();
+    let compiled = catch(|| {
+        let mut file = tfm::File::deserialize(&bytes).0.expect("size-consistent file");
+        CompiledProgram::compile_from_tfm_file(&mut file)
+    });
+    let (cp, errs) = match compiled {
+        Ok(x) => x,
+        Err(p) => {
+            acc.fail(idx, case(json!({})), "deserialize + compile_from_tfm_file return", p.describe(), "compile_from_tfm_file panicked");
+            return;
+        }
+    };
+    // counters from the case
+    let entry_restart = entries.iter().filter_map(|(_, r)| words.get(*r as usize)).filter(|w| w[0] > 128);
+    for w in entry_restart {
+        acc.count("tfm_route_entry_is_restart_word");
+        match words.get(256 * w[2] as usize + w[3] as usize) {
+            Some(t) if t[0] > 128 => acc.count("tfm_route_restart_target_is_again_a_stop_word"),
+            None => acc.count("tfm_route_restart_target_out_of_range"),
+            _ => {}
+        }
+    }
+    if sim.is_empty() != errs.is_empty() {
+        acc.fail(idx, case(json!({})), if sim.is_empty() { "no infinite loop is reported".to_string() } else { format!("an infinite loop is reported (non-terminating pairs {sim:?})") }, format!("{errs:?}"), "loop verdict differs from direct interpretation (TFM route)");
+        return;
+    }
+    if !sim.is_empty() {
+        acc.nontrivial();
+        acc.class("loop reported");
+        return;
+    }
+    let z = (DESIGN_SIZE / 16) as i64;
+    for w in run_words {
+        for lb in [true, false] {
+            acc.eval();
+            let Some(m) = lk::run(&font, w, lb, font.bchar, SIM_BUDGET) else { continue };
+            if !m.fired.is_empty() {
+                acc.nontrivial();
+            }
+            let want: Vec<Out> = m
+                .nodes
+                .iter()
+                .map(|n| match n {
+                    Node::Char(c) | Node::Lig { c, .. } => Out::G(*c),
+                    Node::Kern(k) => Out::K(if *k < 6 { store_scaled(((*k + 1) as i32) << 20, z).unwrap_or(0) } else { 0 }),
+                })
+                .collect();
+            let c = || case(json!({"word": String::from_utf8_lossy(w), "lb": lb}));
+            match impl_run(&cp, w, lb, None) {
+                Err(p) => acc.fail(idx, c(), render_nodes(&m.nodes), p.describe(), "run panicked (TFM route)"),
+                Ok(got) => {
+                    let model_lig: Vec<bool> = m.nodes.iter().filter(|n| !matches!(n, Node::Kern(_))).map(|n| matches!(n, Node::Lig { .. })).collect();
+                    if got.seq != want {
+                        acc.fail(idx, c(), format!("{} = {:?}", render_nodes(&m.nodes), want), format!("{} = {:?}", render_nodes(&got.nodes), got.seq), "characters / ligature glyphs / kerns differ from direct interpretation of the raw words (TFM route)");
+                        acc.class("sequence differs (TFM route)");
+                    } else if got.spelled != *w {
+                        acc.fail(idx, c(), format!("spells {:?}", String::from_utf8_lossy(w)), format!("{} spells {:?}", render_nodes(&got.nodes), String::from_utf8_lossy(&got.spelled)), "recorded characters do not spell the word (TFM route)");
+                    } else if model_lig.iter().zip(got.is_lig.iter()).any(|(m, g)| *m && !*g) {
+                        acc.fail(idx, c(), render_nodes(&m.nodes), render_nodes(&got.nodes), "a glyph produced by a ligature command is reported as a plain character (TFM route)");
+                    } else {
+                        acc.class(&format!("agree (TFM route), {} command(s)", m.fired.len().min(6)));
+                    }
+                }
+            }
+        }
+    }
+}
+
 // ------------------------------------------------------------------ model self-validation
 
 /// Property-list style program text: `L x` label (x = | for the boundary), `S` stop, otherwise
@@ -570,6 +691,7 @@ fn main() {
     ctx.assume("every character of the alphabet exists in the font (no char_warning path; false_bchar = non_char, TeX §576)");
     ctx.assume("how TeX distributes a ligature's original characters and boundary flags over several ligature nodes is not compared node by node (node bookkeeping); compared are: the glyphs and kerns in order, that a glyph TeX holds in a ligature node is reported as a ligature, and the spelling of the word by plain characters and ligature originals with the two boundaries as pseudo-characters (a boundary flag is set iff TeX set it, in the same place of the spelling); exact node agreement is counted as an outcome class");
     ctx.assume("kern amounts are compared after scaling by the design size with TeX §571-572 store_scaled");
+    ctx.assume("TFM route: TeX refuses to load a font whose entry byte or restart address lies outside the lig/kern array (§573); the reference interpreter gives such a character no program, which is what is expected of the compiled program too");
     ctx.assume("words are run only on programs without an infinite loop; for looping programs the loop verdict and the reported pairs are checked");
     self_validate(&mut ctx);
     let sh = Shared { machinery: Mutex::new(vec![]) };
@@ -581,6 +703,12 @@ fn main() {
 
     if let Some((_fam, case)) = ctx.replay_case() {
         let mut acc = Acc::default();
+        if case["kind"] == "tfm-route" {
+            let words: Vec<lk::Word> = case["words"].as_array().map(|a| a.iter().map(|w| [w[0].as_u64().unwrap_or(0) as u8, w[1].as_u64().unwrap_or(0) as u8, w[2].as_u64().unwrap_or(0) as u8, w[3].as_u64().unwrap_or(0) as u8]).collect()).unwrap_or_default();
+            let entries: Vec<(u8, u8)> = case["entries"].as_array().map(|a| a.iter().map(|e| (e[0].as_u64().unwrap_or(0) as u8, e[1].as_u64().unwrap_or(0) as u8)).collect()).unwrap_or_default();
+            check_tfm_route(0, &words, &entries, &words_upto(3), &mut acc, &sh);
+            ctx.finish_replay(acc);
+        }
         let rules: Vec<Rule> = case["rules"].as_array().map(|a| a.iter().map(|r| Rule { left: r[0].as_u64().unwrap() as u8, right: r[1].as_u64().unwrap() as u8, op: r[2].as_u64().unwrap() as u8 }).collect()).unwrap_or_default();
         let rbc = case["rbc"].as_u64().map(|c| c as u8);
         if let Some(a) = case["alphabet"].as_array() {
@@ -661,6 +789,32 @@ fn main() {
             REMAP.with(|m| m.set([b'a', b'b', b'c']));
         });
     }
+    // F2d: the raw-TFM route (File::deserialize + compile_from_tfm_file -> unpack_entrypoint)
+    {
+        // word options: 6 kern instructions (skip 0/1/128 x right a/b, own kern), 2 ligatures (=: c, stop, right a/b),
+        // 5 restart words [254,0,0,t], t in 0..=4 (4 = out of range)
+        let radices: Vec<u64> = vec![13, 13, 13, 13, 5, 6];
+        let n = vcore::product(&radices);
+        let run_words = words_upto(ctx.pick(2, 3));
+        let (rd, rw, shr) = (&radices, &run_words, &sh);
+        ctx.family("tfm-route-redirect-tables", &format!("every lig/kern array of 4 words (kern instruction with skip byte 0/1/128, right character a/b and its own amount; ligature =: c with right character a/b; restart word [254,0,0,t], t in 0..=4 incl. out of range) x entry byte of a in 0..=4 x entry byte of b in {{none,0..=4}}, written as a TFM file, read with File::deserialize and compiled with compile_from_tfm_file; every word of length 1..{} over {{a,b}} with and without left boundary", run_words.last().map(|w| w.len()).unwrap_or(0)), n, |i, acc| {
+            let d = vcore::digits(i, rd);
+            let words: Vec<lk::Word> = d[..4]
+                .iter()
+                .enumerate()
+                .map(|(k, o)| match *o {
+                    0..=5 => [[0u8, 1, 128][(*o % 3) as usize], [b'a', b'b'][(*o / 3) as usize], 128, k as u8],
+                    6 | 7 => [128, [b'a', b'b'][(*o - 6) as usize], 0, b'c'],
+                    t => [254, 0, 0, (t - 8) as u8],
+                })
+                .collect();
+            let mut entries = vec![(b'a', d[4] as u8)];
+            if d[5] > 0 {
+                entries.push((b'b', (d[5] - 1) as u8));
+            }
+            check_tfm_route(i, &words, &entries, rw, acc, shr);
+        });
+    }
     // F3: a word with skip byte > 128 inside a chain (TeX §1039 never executes it and stops there;
     //     lang::Operation::EntrypointRedirect documents it as an unconditional stop)
     {
@@ -690,6 +844,9 @@ fn main() {
     ctx.require("ligature_of_a_ligature", "a ligature command fired on a character that was itself inserted by a ligature command");
     ctx.require("left_boundary_rule_fired", "a left boundary rule fired");
     ctx.require("right_boundary_rule_fired", "a rule fired against the right boundary character");
+    ctx.require("tfm_route_entry_is_restart_word", "TFM route: a character's entry byte names a restart word");
+    ctx.require("tfm_route_restart_target_is_again_a_stop_word", "TFM route: the restart target is itself a word with skip byte > 128 (TeX restarts once: empty program)");
+    ctx.require("tfm_route_restart_target_out_of_range", "TFM route: the restart target lies outside the array");
     ctx.require("word_with_8bit_character", "a word containing a character >= 0x80");
     ctx.require("ligature_glyph_8bit_emitted", "a ligature glyph >= 0x80 is part of the expected output");
     ctx.require("rule_fired_next_to_8bit_glyph", "two or more commands fired in a run whose output has an 8-bit glyph");
